@@ -58,6 +58,28 @@ def judge(prop, case, outs, var):
     return prop.judge(case, outs)
 
 
+def num_of(x):
+    if isinstance(x, list) and len(x) >= 2 and x[0] == "f":
+        return float(x[1])
+    if isinstance(x, list) and len(x) == 3 and x[0] == "q" and x[2] != 0:
+        return x[1] / x[2]
+    return None
+
+
+def same(a, b):
+    """structural equality; an implementation float ["f",x] equals a model rational ["q",n,d] within 1e-9"""
+    na, nb = num_of(a), num_of(b)
+    if na is not None and nb is not None:
+        return abs(na - nb) <= 1e-9 * max(1.0, abs(na), abs(nb))
+    if isinstance(a, dict) and isinstance(b, dict):
+        return a.keys() == b.keys() and all(same(a[k], b[k]) for k in a)
+    if isinstance(a, list) and isinstance(b, list):
+        return len(a) == len(b) and all(same(x, y) for x, y in zip(a, b))
+    if isinstance(a, (int, float)) and isinstance(b, (int, float)) and not isinstance(a, bool) and not isinstance(b, bool):
+        return a == b
+    return a == b and type(a) == type(b)
+
+
 def case_hash(case):
     c = {k: v for k, v in case.items() if k not in ("src",)}
     return hashlib.sha1(jd(c).encode()).hexdigest()[:16]
@@ -113,7 +135,7 @@ def work(args):
                 if var is not None:
                     mvar = (var[0], var[1], mres[k]); k += 1
                 skip = getattr(prop, "model_skip", None)
-                dis = [i for i, (a, b) in enumerate(zip(outs, mo)) if jd(a) != jd(b) and not (skip and skip(lines[i]))]
+                dis = [i for i, (a, b) in enumerate(zip(outs, mo)) if not same(a, b) and not (skip and skip(lines[i]))]
                 if len(outs) != len(mo):
                     dis.append(min(len(outs), len(mo)))
                 if dis:
